@@ -652,6 +652,7 @@ func (c *Ctx) c08CompileEach() {
 	c.FuncsSeen[fname(front)] = true
 	c.FuncsSeen[fname(f)] = true
 	key := fname(front) + "/compile-each"
+	c.rule("E10", "the compiled exclusion list depends on the arguments only: no package-level state is read or written on the way from NewExclusionRegexList to the compiled expressions", 1)
 	c.c08Pure(front)
 	var compiles []*ssa.Call
 	isCompile := func(n string) bool {
@@ -801,7 +802,6 @@ func (c *Ctx) loopsRunToTheEnd(f *ssa.Function) (loops int, bad string) {
 // written (a cache of compiled sets keyed by anything less than the whole set hands one set the expressions of another;
 // it would also let an invalid set through on a hit).
 func (c *Ctx) c08Pure(front *ssa.Function) {
-	c.rule("E10", "the compiled exclusion list depends on the arguments only: no package-level state is read or written on the way from NewExclusionRegexList to the compiled expressions", 1)
 	bad := ""
 	seen := map[*ssa.Function]bool{}
 	var walk func(g *ssa.Function, d int)
